@@ -7,6 +7,14 @@ HERE = os.path.dirname(os.path.dirname(os.path.abspath(__file__)))
 
 # id -> (technique, level text, level note, design ref)
 CHECKS = {
+    'C01': ('bounded-exhaustive enumeration of operator skeletons x operand vectors x operand sources on the real pipeline, '
+            'compared with an independent precedence-climbing reference evaluator',
+            'all chains of 2 binary operators over the 11 operators with sign/percent decorations and bracketings, chains of 3 '
+            'and 4 operators, unary/percent stacks and every decimal literal spelling up to the digit bound are translated and '
+            'evaluated by the real Parser/Executor under several operand vectors (numbers, text, blank, TRUE; as overrides, '
+            'workbook constants and literals); exhaustive within those bounds',
+            'trusted: mc/ref/formula.py (reference grammar and IEEE arithmetic); small-scope hypothesis for longer chains',
+            'DESIGN.md section 2 C01'),
     'C10': ('bounded-exhaustive enumeration of operand pairs x operators x sources on the real pipeline, judged by an exact '
             'rational reference and algebraic laws',
             'every ordered pair over a 40-value alphabet (numbers differing only in the fraction, negatives, texts, numeric '
